@@ -338,6 +338,27 @@ func (s *System) findMailbox(ref *Ref) vivid.Mailbox {
 			return v
 		}
 	}
-	// 若上述皆未命中，返回系统根 Actor 的 Mailbox 作为默认兜底方案，保证 Mailbox 一定可用。
-	return s.Mailbox()
+	// 根 Actor 不在 actorContexts 中注册，按路径识别
+	if ref.GetPath() == s.Ref().GetPath() {
+		return s.Mailbox()
+	}
+	// 目标不存在（从未创建或已释放）：消息进入死信，而不是投递给根 Actor
+	// （根 Actor 会静默忽略用户消息，而投递给它的 OnKill 会终止整个系统）
+	return deadLetterMailbox{system: s}
 }
+
+// deadLetterMailbox 是不存在的本地目标的邮箱：所有消息都作为死信上报。
+type deadLetterMailbox struct {
+	system *System
+}
+
+func (m deadLetterMailbox) Enqueue(envelop vivid.Envelop) {
+	m.system.TellSelf(ves.DeathLetterEvent{
+		Envelope: envelop,
+		Time:     time.Now(),
+	})
+}
+
+func (m deadLetterMailbox) Pause()         {}
+func (m deadLetterMailbox) Resume()        {}
+func (m deadLetterMailbox) IsPaused() bool { return false }
